@@ -132,12 +132,9 @@ func pendingOf(cur *obs, floor int64) []int64 {
 }
 
 // aligned: every position the leader holds for the follower is on the follower with equal bytes, and the two
-// append indexes agree (so that the next append is accepted); a follower that is BEHIND while nothing is
-// pending (it lost acknowledged messages and the leader is idle) is accepted: the leader finds out with
-// its next send.
+// append indexes agree (so that the next append is accepted).
 func aligned(cur *obs, floor int64) (ok bool, missing, differ []int64) {
-	pend := pendingOf(cur, floor)
-	for _, i := range pend {
+	for _, i := range pendingOf(cur, floor) {
 		fb, has := cur.F.Bytes[i]
 		switch {
 		case !has:
@@ -146,14 +143,16 @@ func aligned(cur *obs, floor int64) (ok bool, missing, differ []int64) {
 			differ = append(differ, i)
 		}
 	}
-	idx := cur.F.App == cur.L.App || (len(pend) == 0 && cur.F.App < cur.L.App)
-	return idx && len(missing) == 0 && len(differ) == 0, missing, differ
+	return cur.F.App == cur.L.App && len(missing) == 0 && len(differ) == 0, missing, differ
 }
 
 // checkRecovery: from this state, using non-fault events only (F.online if the follower is offline, then
 // steps), the channel must reach within K steps "follower appended == leader appended and equal bytes over
 // everything the leader still holds for the follower", and the first message delivered on that path must be
-// the first position the follower lacks and the leader still holds.
+// the first position the follower lacks and the leader still holds. An idle leader (Ready, everything
+// consumed) never touches its stream and cannot notice a follower that went backwards: if the steps alone
+// do not align the logs, the path continues with ONE more leader append (normal traffic, no fault, not an
+// operator action) and K more steps.
 func (w *world) checkRecovery(s *obs) []vxstate.Finding {
 	var out []vxstate.Finding
 	add := func(clause, detail string) {
@@ -202,6 +201,21 @@ func (w *world) checkRecovery(s *obs) []vxstate.Finding {
 		cur = w.observe()
 		reached, _, _ = aligned(cur, floor)
 	}
+	if !reached && w.crash == "" {
+		seq := cur.L.App + 1
+		if err := w.lpart.WriteLog(payload('x', w.epoch, seq)); err == nil {
+			path = append(path, "L.append")
+			gRep.Count("recovery_paths_that_needed_new_traffic", 1)
+			cur = w.observe()
+			reached, _, _ = aligned(cur, floor)
+			for n := 0; !reached && n < w.cfg.K && w.crash == ""; n++ {
+				w.runStep("")
+				path = append(path, "step")
+				cur = w.observe()
+				reached, _, _ = aligned(cur, floor)
+			}
+		}
+	}
 	dl := w.deliveries
 	gRep.Count("recovery_paths", 1)
 	gRep.Count("recovery_steps", int64(len(path)))
@@ -216,8 +230,8 @@ func (w *world) checkRecovery(s *obs) []vxstate.Finding {
 		if len(differ) > 0 && len(missing) == 0 && cur.F.App == cur.L.App {
 			clause = w.divergeClause(clause)
 		}
-		add(clause, fmt.Sprintf("no alignment after F.online + %d fault-free steps: follower appended %d, leader appended %d, of the positions the leader holds for the follower (> ack %d) the follower lacks %v and has different bytes at %v | %s",
-			w.cfg.K, cur.F.App, cur.L.App, floor, missing, differ, ctx))
+		add(clause, fmt.Sprintf("no alignment after F.online + %d fault-free steps + one more leader append + %d steps: follower appended %d, leader appended %d, of the positions the leader holds for the follower (> ack %d) the follower lacks %v and has different bytes at %v | %s",
+			w.cfg.K, w.cfg.K, cur.F.App, cur.L.App, floor, missing, differ, ctx))
 	}
 	if first >= 0 && len(dl) > 0 && dl[0].Idx != first {
 		add("resume-wrong-first", fmt.Sprintf("replication resumed from position %d; the first position the follower lacks and the leader still holds is %d | %s", dl[0].Idx, first, ctx))
@@ -226,7 +240,10 @@ func (w *world) checkRecovery(s *obs) []vxstate.Finding {
 	if !reached {
 		key = "recovery:not-aligned"
 	}
-	gRep.Outcome(fmt.Sprintf("%s/steps=%d/deliveries=%d", key, len(path), len(dl)))
+	if len(path) > w.cfg.K {
+		key += "/with-new-traffic"
+	}
+	gRep.Outcome(fmt.Sprintf("%s/events=%d/deliveries=%d", key, len(path), len(dl)))
 	return out
 }
 
